@@ -138,10 +138,11 @@ def mlFirstOK (p : List (PatElem Bytes)) : Bool :=
   | _ => true
 
 /-- **the pattern class** (texts; the placeables are constrained separately): line-split texts without
-`\r`, lines start with a byte that continues a pattern, some line has no excess indentation -/
+`\r`, lines start with a byte that continues a pattern, some line has no excess indentation (or no line
+takes part in the common-indent computation: an inline start followed only by a select expression) -/
 def mlPattern (p : List (PatElem Bytes)) : Bool :=
   !p.isEmpty && mlElems (startsOnNewLine p) p && mlLastOK p && mlFirstOK p &&
-    (!isMultiline p || (excesses (startsOnNewLine p) p).contains 0)
+    (!isMultiline p || (excesses (startsOnNewLine p) p).isEmpty || (excesses (startsOnNewLine p) p).contains 0)
 
 /-! ## common indent bookkeeping -/
 
